@@ -518,16 +518,17 @@ class FLAE:
         if method.lower() == 'symbolic':
             # Parameters (eq. 53)
             T0 = 2*t1**3 + 27*t2**2 - 72*t1*t3
-            T1 = np.cbrt(T0 + np.emath.sqrt(-4*(t1**2 + 12*t3)**3 + T0**2).real)
-            T2 = np.sqrt(abs(-4*t1 + np.cbrt(16)*(t1**2 + 12*t3)/T1 + np.cbrt(4)*T1))
+            # The four roots are real, but the intermediate terms of Ferrari's solution are complex
+            T1 = (T0 + np.sqrt(complex(-4*(t1**2 + 12*t3)**3 + T0**2)))**(1.0/3.0)
+            T2 = np.sqrt(-4*t1 + np.cbrt(16)*(t1**2 + 12*t3)/T1 + np.cbrt(4)*T1)
             # Solutions to polynomial (eq. 52)
-            L = np.zeros(4)
-            L[0] =   T2 - np.sqrt(abs(-T2**2 - 12*t1 - 12*np.sqrt(6)*t2/T2))
-            L[1] =   T2 + np.sqrt(abs(-T2**2 - 12*t1 - 12*np.sqrt(6)*t2/T2))
-            L[2] = -(T2 + np.sqrt(abs(-T2**2 - 12*t1 + 12*np.sqrt(6)*t2/T2)))
-            L[3] = -(T2 - np.sqrt(abs(-T2**2 - 12*t1 + 12*np.sqrt(6)*t2/T2)))
+            L = np.zeros(4, dtype=complex)
+            L[0] =   T2 - np.sqrt(-T2**2 - 12*t1 - 12*np.sqrt(6)*t2/T2)
+            L[1] =   T2 + np.sqrt(-T2**2 - 12*t1 - 12*np.sqrt(6)*t2/T2)
+            L[2] = -(T2 + np.sqrt(-T2**2 - 12*t1 + 12*np.sqrt(6)*t2/T2))
+            L[3] = -(T2 - np.sqrt(-T2**2 - 12*t1 + 12*np.sqrt(6)*t2/T2))
             L *= 1.0/(2.0*np.sqrt(6))
-            lam = L[(np.abs(L-1.0)).argmin()]               # Eigenvalue closest to 1
+            lam = L[(np.abs(L-1.0)).argmin()].real          # Eigenvalue closest to 1
         N = W - lam*np.identity(4)                          # (eq. 54)
         # Solve for N and get fundamental solution (N is singular by construction: lam is an eigenvalue of W)
         r = np.linalg.solve(N[1:, :-1], N[1:, -1])          # (eq. 55)
